@@ -95,6 +95,11 @@ func anyToDoc(v any) *doc.Node {
 		return doc.T(t.Format(time.RFC3339Nano), t)
 	case uint64:
 		return doc.F(float64(t))
+	case *string:
+		if t == nil {
+			return doc.Null()
+		}
+		return doc.S(*t)
 	}
 	return doc.S(fmt.Sprintf("<unsupported %T>", v))
 }
